@@ -224,6 +224,7 @@ class Item:
              r.map(|x| e)           -> (match r { Some(x) => Some(e), None => None })
              r.and_then(|x| e)      -> (match r { Some(x) => e, None => None })
              r.map_or(d, |x| e)     -> (match r { Some(x) => e, None => d })
+             r.map_or_else(f, |x| e) -> (match r { Some(x) => e, None => f() })
              r.is_some_and(|x| e)   -> (match r { Some(x) => e, None => false })
              r.ok_or_else(|| e)     -> (match r { Some(verif_v) => Ok(verif_v), None => Err(e) })
              r.unwrap_or_else(|| e) -> (match r { Some(verif_v) => verif_v, None => e })
@@ -236,7 +237,7 @@ class Item:
             done = False
             for k, (kind, a, b) in enumerate(toks):
                 name = src[a:b]
-                if kind != "ident" or name not in ("map", "and_then", "map_or", "is_some_and", "ok_or_else", "unwrap_or_else"):
+                if kind != "ident" or name not in ("map", "and_then", "map_or", "map_or_else", "is_some_and", "ok_or_else", "unwrap_or_else"):
                     continue
                 if k < 1 or src[toks[k - 1][1]] != "." or k + 1 >= len(toks) or src[toks[k + 1][1]] != "(":
                     continue
@@ -244,7 +245,7 @@ class Item:
                 # ---- arguments: [default ,] |x| body
                 i = k + 2
                 default = None
-                if name == "map_or":
+                if name in ("map_or", "map_or_else"):
                     depth, j = 0, i
                     while j < close:
                         ch = src[toks[j][1]]
@@ -327,6 +328,8 @@ class Item:
                     new = "(match %s { Some(%s) => %s, None => None })" % (recv, param, body)
                 elif name == "map_or":
                     new = "(match %s { Some(%s) => %s, None => %s })" % (recv, param, body, default)
+                elif name == "map_or_else":
+                    new = "(match %s { Some(%s) => %s, None => (%s)() })" % (recv, param, body, default)
                 elif name == "is_some_and":
                     new = "(match %s { Some(%s) => %s, None => false })" % (recv, param, body)
                 elif name == "ok_or_else":
@@ -366,11 +369,68 @@ class Item:
         pat3 = re.compile(r"(\w+\([^()]*\))\s*\.map\((\w+(?:::\w+)+)\)\s*\.map_err\(\|_\w*\|\s*((?:[^()]|\([^()]*\))*)\)")
         self.text, k = pat3.subn(r"(match \1 { Ok(verif_v) => Ok(\2(verif_v)), Err(_) => Err(\3) })", self.text)
         n += k
+        pat4 = re.compile(r"((?:\w+::)*\w+\([^()]*\))\s*\.map\(\|(\w+)\|\s*((?:[^()|]|\((?:[^()]|\([^()]*\))*\))*)\)\s*\.map_err\(\|_\w*\|\s*((?:[^()]|\([^()]*\))*)\)")
+        self.text, k = pat4.subn(r"(match \1 { Ok(\2) => Ok(\3), Err(_) => Err(\4) })", self.text)
+        n += k
         pat2 = re.compile(r"(\w+\([^()]*\))\s*\.map\((\w+(?:::\w+)+)\)\s*\.ok\(\)")
         self.text, k = pat2.subn(r"(match \1 { Ok(verif_v) => Some(\2(verif_v)), Err(_) => None })", self.text)
         n += k
         if n:
             self.rewrites.append({"rule": "R8", "what": "%d `call.map(Ctor).unwrap_or(d)` / `.ok()` chain(s) on a Result desugared to the match of their std definition" % n})
+        return self
+
+    def desugar_str_match(self):
+        """R15 (strings): `match EXPR { "a" => A, "b" => B, name => C }` - string literal patterns and a final binding or `_` - is the chain of comparisons rustc compiles it to:
+        `{ let verif_m = EXPR; if str_eq(verif_m, "a") { A } else if str_eq(verif_m, "b") { B } else { let name = verif_m; C } }` (Verus has no str patterns).
+        str_eq is the unit's shim for `&str == &str`."""
+        n = 0
+        while True:
+            src = self.text
+            toks = code_tokens(src)
+            done = False
+            for i, (kind, a, b) in enumerate(toks):
+                if not (kind == "ident" and src[a:b] == "match"):
+                    continue
+                j = find_block_open(src, toks, i + 1)
+                if j is None:
+                    continue
+                close = match_brace(src, toks, j)
+                # split the arms at top-level commas
+                arms, depth, start = [], 0, toks[j][2]
+                for k in range(j + 1, close):
+                    ch = src[toks[k][1]]
+                    if toks[k][0] == "punct" and ch in "([{":
+                        depth += 1
+                    elif toks[k][0] == "punct" and ch in ")]}":
+                        depth -= 1
+                    elif toks[k][0] == "punct" and ch == "," and depth == 0:
+                        arms.append(src[start:toks[k][1]])
+                        start = toks[k][2]
+                if src[start:toks[close][1]].strip():
+                    arms.append(src[start:toks[close][1]])
+                parsed = []
+                for arm in arms:
+                    m = re.match(r"\s*(\"(?:[^\"\\]|\\.)*\"|\w+)\s*=>\s*(.*)$", arm, re.S)
+                    if not m:
+                        parsed = None
+                        break
+                    parsed.append((m.group(1), m.group(2).strip()))
+                if not parsed or not parsed[0][0].startswith('"') or parsed[-1][0].startswith('"') or any(not p.startswith('"') for p, _ in parsed[:-1]):
+                    continue
+                scrut = src[toks[i][2]:toks[j][1]].strip()
+                out = "{ let verif_m = %s; " % scrut
+                for pat, body in parsed[:-1]:
+                    out += "if str_eq(verif_m, %s) { %s } else " % (pat, body)
+                last_pat, last_body = parsed[-1]
+                out += "{ %s%s } }" % ("" if last_pat == "_" else "let %s = verif_m; " % last_pat, last_body)
+                self.text = src[:a] + out + src[toks[close][2]:]
+                n += 1
+                done = True
+                break
+            if not done:
+                break
+        if n:
+            self.rewrites.append({"rule": "R15", "what": "%d `match` on a str with literal patterns desugared to a chain of str_eq comparisons" % n})
         return self
 
     def desugar_map_transpose(self):
